@@ -31,6 +31,54 @@ def V(prop, vid, file, func, old, new, expect, construct='', count=1):
         expect=expect, construct=construct, count=count))
 
 
+def VP(prop, seed_id, expect, construct=''):
+    """A stored seeded break (/verif/seeded/<id>/patch.diff) as a variant:
+    the patch is applied to copies of the files it touches (in a temporary
+    directory, with `patch`; nothing of the repository is executed) and the
+    patched texts form the overlay."""
+    VARIANTS.setdefault(prop, []).append(dict(
+        prop=prop, id=f'seed:{seed_id}', seed=seed_id, expect=expect,
+        construct=construct, file=None, func=None, old=None, new=None,
+        count=1))
+
+
+def _apply_seed(repo: model.Repo, v):
+    import re
+    import shutil
+    import subprocess
+    import tempfile
+    pf = os.path.join(report.VERIF, 'seeded', v['seed'], 'patch.diff')
+    if not os.path.exists(pf):
+        return None
+    files = re.findall(r'^\+\+\+ b/(\S+)', open(pf).read(), re.M)
+    tmp = tempfile.mkdtemp(prefix='stseed.')
+    try:
+        for rel in files:
+            m = repo.by_path.get(rel)
+            dst = os.path.join(tmp, rel)
+            os.makedirs(os.path.dirname(dst), exist_ok=True)
+            if m is not None:
+                with open(dst, 'w') as fh:
+                    fh.write(m.src)
+        r = subprocess.run(['patch', '-p1', '-s', '-f',
+                            '--no-backup-if-mismatch', '-i', pf],
+                           cwd=tmp, capture_output=True)
+        if r.returncode != 0:
+            return None
+        out = {}
+        for rel in files:
+            if rel.endswith('.py') and os.path.exists(os.path.join(tmp, rel)):
+                with open(os.path.join(tmp, rel)) as fh:
+                    out[rel] = fh.read()
+        for src in out.values():
+            ast.parse(src)
+        return out or None
+    except SyntaxError:
+        return None
+    finally:
+        shutil.rmtree(tmp, ignore_errors=True)
+
+
 def _apply(repo: model.Repo, v) -> Optional[str]:
     m = repo.by_path.get(v['file'])
     if m is None:
@@ -73,18 +121,37 @@ def _run_variant(args):
     global _BASE
     if _BASE is None:
         _BASE = model.Repo()
-    new_src = _apply(_BASE, v)
-    if new_src is None:
-        return (v['id'], 'stale', [])
-    repo = model.Repo(base=_BASE, overlay={v['file']: new_src})
+    if v.get('seed'):
+        overlay = _apply_seed(_BASE, v)
+        if overlay is None:
+            return (v['id'], 'stale', [])
+    else:
+        new_src = _apply(_BASE, v)
+        if new_src is None:
+            return (v['id'], 'stale', [])
+        overlay = {v['file']: new_src}
+    repo = model.Repo(base=_BASE, overlay=overlay)
     mod = importlib.import_module(f'sa.rules.{prop.lower()}')
     ctx = report.Ctx(prop, 'quick')
+    # same order as the CLI: a rule that cannot read its anchor does not
+    # stop the slip battery, and a finding takes precedence over that error
+    deferred = None
     try:
         mod.run(repo, ctx)
+    except model.AnalysisError as e:
+        deferred = e
+    try:
         from . import lints
         lints.for_property(repo, ctx, prop)
     except model.AnalysisError as e:
-        return (v['id'], 'analysis-error', [str(e)])
+        deferred = deferred or e
+    if deferred is not None:
+        known0 = {(k['rule'], k['construct'])
+                  for k in report.load_known().get(prop, [])}
+        if not any((f.rule, f.construct) not in known0
+                   for f in ctx.findings):
+            return (v['id'], 'analysis-error', [str(deferred)])
+        ctx.rule_floor.clear()
     known = {(k['rule'], k['construct'])
              for k in report.load_known().get(prop, [])}
     fs = [f for f in ctx.findings if (f.rule, f.construct) not in known]
